@@ -65,6 +65,9 @@ def pctEncode (v : Bytes) : Bytes :=
 def cleanKeyByte (b : UInt8) : Bool :=
   decide (0x21 ≤ b.toNat) && decide (b.toNat ≤ 0x7E) && decide (b.toNat ≠ 0x2C) && decide (b.toNat ≠ 0x3D)
 def cleanKey (k : Bytes) : Bool := !k.isEmpty && k.all cleanKeyByte
+/-- the exact well-formedness predicate of a key for the round trip: unchanged by `strings.TrimSpace`
+on either side (any bytes otherwise, incl. the empty key and non-UTF-8), no `,`, no `=` -/
+def keyOK (k : Bytes) : Bool := trimLeft k == k && trimRight k == k && !k.contains 0x2C && !k.contains 0x3D
 def renderPair (p : Bytes × Bytes) : Bytes := p.1 ++ 0x3D :: pctEncode p.2
 def renderEnv (ps : List (Bytes × Bytes)) : Bytes := ((ps.map renderPair).intersperse [0x2C]).flatten
 
@@ -94,25 +97,83 @@ def detectRef (init : Bytes) (ds : List (Option DetOut)) : DetState :=
   { res := ⟨attrs, if anyErr && conflict then [] else sch.1⟩, anyErr := anyErr,
     partialSeen := errs.any (·.isPartial), conflictSeen := conflict }
 
+/-! #### `detect` as a left fold of `Merge` -/
+
+/-- which detectors reach `Merge`, and with which argument (nil detectors and detectors failing
+with a non-partial error do not; a nil *resource* does) -/
+def mergedArg : Option DetOut → Option (Option Res)
+  | none => none
+  | some d => if d.err.any (fun e => !e.isPartial) then none else some d.res
+
+/-- left fold of `Merge` over a list of `*Resource`, or-ing the conflict flags -/
+def mergeFold (acc : Res × Bool) (rs : List (Option Res)) : Res × Bool :=
+  rs.foldl (fun acc r => ((merge (some acc.1) r).1, acc.2 || (merge (some acc.1) r).2)) acc
+
 /-! #### resource.New -/
 
 /-- the schema URL option that counts: the last one -/
 def schemaOf (opts : List Opt) : Bytes :=
   opts.foldl (fun s o => match o with | .withSchemaURL x => x | _ => s) []
 
+/-- reference for `StringDetector`: one attribute `k = v` under the schema URL, provided `f`
+succeeded and the key is not empty; otherwise nothing and a (non-partial) error -/
+def stringDetRef (schema k : Bytes) (f : Option Bytes) : DetOut :=
+  match f with
+  | some v => if k = [] then ⟨none, some ⟨false, false⟩⟩ else ⟨some ⟨[⟨k, .str v⟩], schema⟩, none⟩
+  | none => ⟨none, some ⟨false, false⟩⟩
+
+/-- a composite built-in option stands for these single-detector options, in this order
+(documentation of `WithOS`, `WithProcess`, `WithContainer`); a single option stands for itself -/
+def optSingles : BOpt → List BOpt
+  | .os => [.osType, .osDescription]
+  | .process => [.processPID, .processExecutableName, .processExecutablePath, .processCommandArgs,
+      .processOwner, .processRuntimeName, .processRuntimeVersion, .processRuntimeDescription]
+  | .container => [.containerID]
+  | o => [o]
+
+/-- the detector behind a single built-in option -/
+def singleDet : BOpt → Option BDet
+  | .host => some .host | .hostID => some .hostID | .telemetrySDK => some .telemetrySDK
+  | .osType => some .osType | .osDescription => some .osDescription
+  | .processPID => some .processPID | .processExecutableName => some .processExecutableName
+  | .processExecutablePath => some .processExecutablePath | .processCommandArgs => some .processCommandArgs
+  | .processOwner => some .processOwner | .processRuntimeName => some .processRuntimeName
+  | .processRuntimeVersion => some .processRuntimeVersion
+  | .processRuntimeDescription => some .processRuntimeDescription
+  | .containerID => some .containerID
+  | .os => none | .process => none | .container => none
+
+/-- the reference environment detector -/
+def envDetRef (env : Env) : Option DetOut :=
+  some ⟨some ⟨(envRef env.attrs env.svc).1, []⟩, if (envRef env.attrs env.svc).2 then some ⟨true, false⟩ else none⟩
+
 /-- what an option contributes to the detector sequence, by the reference semantics -/
 def optDetRef (env : Env) : Opt → List (Option DetOut)
   | .withSchemaURL _ => []
   | .withDetectors ds => ds
   | .withAttributes kvs => [some ⟨some ⟨contents kvs, []⟩, none⟩]
-  | .withFromEnv =>
-    [some ⟨some ⟨(envRef env.attrs env.svc).1, []⟩, if (envRef env.attrs env.svc).2 then some ⟨true, false⟩ else none⟩]
+  | .withFromEnv => [envDetRef env]
+  | .withBuiltin o => (optSingles o).filterMap (fun s => (singleDet s).map (fun d => some (env.builtin d)))
 
 /-- reference for `New`: every option's detectors, in option order (an option or detector given
 again counts again, at its later position), folded by the `Detect` reference from the last
 schema URL option -/
 def newRef (env : Env) (opts : List Opt) : DetState :=
   detectRef (schemaOf opts) (opts.flatMap (optDetRef env))
+
+/-! #### resource.Default -/
+
+/-- reference for the first `Default()` call: default service name, then the environment, then the
+telemetry SDK attributes — later ones win — from an empty schema URL -/
+def defaultRef (env : Env) : DetState :=
+  detectRef [] [some (env.builtin .defaultServiceName), envDetRef env, some (env.builtin .telemetrySDK)]
+
+/-- a sequence of `Default()` calls under changing environments: every call returns what the FIRST
+one computed -/
+def defaultSeqOK (envs : List Env) (results : List Res) : Bool :=
+  match envs with
+  | [] => results.isEmpty
+  | e :: _ => results == envs.map (fun _ => (defaultRef e).res)
 
 end Spec
 end C19
